@@ -4,7 +4,7 @@ import os
 import time
 
 VERIF = os.path.dirname(os.path.dirname(os.path.abspath(__file__)))
-EVID = os.path.join(VERIF, "evidence")
+EVID = os.environ.get("VERIF_EVIDENCE", os.path.join(VERIF, "evidence"))      # VERIF_EVIDENCE: runs against a patched worktree write elsewhere
 LEVELS = ("exploration", "fault_enumeration", "model_checking", "proof", "translation_validation", "other")
 
 
